@@ -135,11 +135,15 @@ def wiring(ctx, rule="R06.3", only_flag=False):
         kinds = []
         # a conditional expression contributes both of its values
         vals = []
-        for _, v in defs:
-            if v is None:
+        from ..dataflow import expansions
+        at_ = next((st_ for st_ in ast.walk(fn) if isinstance(st_, ast.stmt) and not isinstance(st_, (ast.FunctionDef, ast.If, ast.For, ast.While, ast.With, ast.Try))
+                    and any(x is call for x in ast.walk(st_))), None)
+        if at_ is None:
+            raise AnalysisError("the MeshOperators(...) call is not inside a simple statement")
+        for e0 in expansions(fn, fs, at_):
+            if isinstance(e0, ast.Name):
                 vals.append(None)
                 continue
-            e0 = expand(fn, v, stop=(fs.id,))
             todo_ = [e0]
             while todo_:
                 x = todo_.pop()
@@ -166,7 +170,7 @@ def wiring(ctx, rule="R06.3", only_flag=False):
                     ((isinstance(e.args[0], ast.Constant) and e.args[0].value == 0) or norm(e.args[0]) in ("(0,)", "[0]")):
                 k = "empty"
             kinds.append(k)
-        detail = {"fixed_sites": fs.id, "definitions": [norm(expand(fn, v, stop=(fs.id,)))[:120] for _, v in defs if v is not None], "kinds": kinds}
+        detail = {"fixed_sites": fs.id, "definitions": [norm(v)[:120] for v in vals if v is not None], "kinds": kinds}
         ok = kinds.count("all-terminals") == 1 and all(k in ("all-terminals", "empty") for k in kinds)
     ctx.ob("R06.3", "fixed_sites == concatenation of every terminal's site_indices (or empty)", ok, detail=detail,
            where=fi.fq, construct="MeshOperators(fixed_sites=...)", loc=loc(fi, call),
